@@ -186,8 +186,11 @@ class Dendrogram(object):
         self.params = dict(min_npix=min_npix, min_value=min_value,
                            min_delta=min_delta)
 
-        # Create a list of all points in the cube above min_value
-        keep = self.data > min_value
+        # Create a list of all points in the cube above min_value. A Python
+        # float threshold is compared in double precision rather than being
+        # rounded to the (possibly narrower) dtype of the data first
+        threshold = np.float64(min_value) if isinstance(min_value, float) else min_value
+        keep = self.data > threshold
         data_values = self.data[keep]
         indices = np.vstack(np.where(keep)).transpose()
 
